@@ -693,23 +693,34 @@ pub fn conclude(
                 let o = v.scenario.get("origin").and_then(|x| x.as_str()).unwrap_or("").to_string();
                 let n = per_origin.entry(o).or_insert(0);
                 *n += 1;
-                *n <= 5
+                *n <= 40
             })
-            .take(15)
+            .take(120)
             .collect();
+        // re-running an instance in this process is cheap; minimising and confirming it in a
+        // fresh process is not: at most six instances get that far
+        let mut expensive_attempts = 0;
+        let mut not_reproduced = 0;
         for v in candidates {
             // Re-run the unminimised scenario first: it has to reproduce from its explicit form.
             let first = replay(&v.scenario);
             let Some(mut base) = first.into_iter().find(|x| &x.class == class) else {
-                eprintln!(
-                    "note: violation class {} of sim {} does not reproduce from its explicit scenario (state outside the simulated process? engine statics are shared by all sims of this OS process)",
-                    class, v.sim_index
-                );
-                eprintln!("scenario: {}", v.scenario);
+                not_reproduced += 1;
+                if not_reproduced <= 3 {
+                    eprintln!(
+                        "note: violation class {} of sim {} does not reproduce from its explicit scenario (state outside the simulated process? engine statics are shared by all sims of this OS process)",
+                        class, v.sim_index
+                    );
+                    eprintln!("scenario: {}", v.scenario);
+                }
                 continue;
             };
             base.sim_index = v.sim_index;
             base.sim_seed = v.sim_seed;
+            expensive_attempts += 1;
+            if expensive_attempts > 6 {
+                break;
+            }
             let min = minimise(&base, replay, shrink, 400);
             let path = write_replay(ctx, &min, v);
             let mut min = min;
